@@ -13,7 +13,7 @@ CHECKS = {
    note="the model of a tag is read off doc-cli.md / seq.rs: parent words, then word files separated by one empty line; each entry applied to the previous stage's rendered words with the tag's own alias; a stage that errors yields no file",
    technique="model-driven differential on the binary's output tree + bounded rejection of cyclic configurations"),
  "C12": dict(level="exploration", design="§3 C12",
-   text="Shorthand-vs-expansion monitor: 40 k (quick) / 2 M (thorough) descriptions, each printed as the shorthand and as its mechanical expansion - condensed comma rules vs the sequence of sub-rules, `_,X` vs `X_ , _X` mirrored, group letters vs the manual's matrices, optionals `(X,M:N)` (with pre- and multi-element post-context, in context or exception) vs the environment set of their repetitions, `A B > &` vs `A=1 B=2 > 2 1` - applied by the real interpreter to small words over {a k i t} in random syllabifications and to generated words; structural results (hook) must be equal or both fail (460 k applications quick).",
+   text="Shorthand-vs-expansion monitor: 40 k (quick) / 2 M (thorough) descriptions, each printed as the shorthand and as its mechanical expansion - condensed comma rules vs the sequence of sub-rules, `_,X` vs `X_ , _X` mirrored, group letters vs the manual's matrices, optionals `(X,M:N)` (with pre- and multi-element post-context, in context or exception) vs the environment set of their repetitions (a third of them aimed at the retry path: broad repeated element, room for more repetitions, a rest that often matches in part), `A B > &` vs `A=1 B=2 > 2 1` - applied by the real interpreter to small words over {a k i t} in random syllabifications and to generated words; structural results (hook) must be equal or both fail (460 k applications quick).",
    note="known finding KF-C12-1 (metathesis spellings differ when a long segment is swapped); the group table is copied from doc.md, not from the parser",
    technique="metamorphic (shorthand vs expansion) runtime monitor on the structural hook"),
  "C13": dict(level="exploration", design="§3 C13",
@@ -65,9 +65,9 @@ CHECKS = {
    note="public API plus render_word for Change.after; a reported group whose rendering equals the previous one is counted, not judged (the renderer is not injective)",
    technique="trace-vs-prefix-run differential monitor over generated workloads"),
  "C02": dict(level="exploration", design="§3 C02",
-   text="Isolation monitor: every call of run / trace_changes / get_trace_string runs in a worker process under catch_unwind and a step budget (tick hook at 115 loop heads) proportional to |words| x |rules|; the worker publishes the index of the case it is about to run so a case that kills the process is identified and the shard restarted (conservation: assigned = completed + killed). Workload = full-grammar rules, token mutants of the 470 harvested rules, numeric extremes, character noise for rules, words and alias lines, degenerate words; 400 k cases x 2 build profiles (checked = overflow + debug assertions; release) in the quick tier, 12 M x 2 in thorough. Budget exhaustion is retried at 2x (slow = inconclusive) and, for rules with ellipses/optionals, at 64x (superlinear, reported separately from hang).",
+   text="Isolation monitor: every call of run / trace_changes / get_trace_string runs in a worker process under catch_unwind and a step budget (tick hook at 115 loop heads) proportional to |words| x |rules|; the worker publishes the index of the case it is about to run so a case that kills the process is identified and the shard restarted (conservation: assigned = completed + killed). Workload = full-grammar rules, token mutants of the 470 harvested rules, numeric extremes, character noise for rules, words and alias lines, degenerate words; 400 k cases x 2 build profiles (checked = overflow + debug assertions; release) in the quick tier, 12 M x 2 in thorough. Budget exhaustion is retried at 2x (returns = slow, counted, not a violation; exhausted again = hang) and, for rules with ellipses/optionals whose hot tick sites are the backtracking matcher's, at 64x (superlinear, reported separately from hang). A UB check of the checked build that aborts the process is reported as a sanitizer violation. Thorough adds a slice of the workload (incl. every named alias escape, the from_u32_unchecked site) under Miri.",
    note="step budget constants calibrated on the unchanged tree (largest observed ticks/budget ratio is reported); wall-clock only as a watchdog whose firing is inconclusive; panics are keyed by (innermost function of the code under test, message class) from the symbolised backtrace",
-   technique="runtime isolation monitor (catch_unwind + step-budget hook + process-death detection) over generated hostile workloads, two build profiles"),
+   technique="runtime isolation monitor (catch_unwind + step-budget hook + process-death detection) over generated hostile workloads, two build profiles (checked = overflow/debug-assert/UB-check sanitizer build, release), Miri slice in thorough"),
  "C03": dict(level="exploration", design="§3 C03",
    text="Reference-interpreter monitor: 89 100 basic-fragment rules (every input x output x single environment with sides of length <= 1 plus an adjoining boundary, as context-only and as exception-only) and a seeded sample of rules with sides <= 2, context and exception together and environment sets, applied by the real interpreter to every word of <= 3-5 segments over an 8-segment inventory in every syllabification, and compared structurally with a 150-line left-to-right reference written from the manual (24 M applications quick, ~1 G thorough). Cases in which equal segments become adjacent are discarded as the property says.",
    note="oracle = my reference interpreter over raw feature bits (independent of the implementation's matcher); sampled part depends on VERIF_SEED",
@@ -81,7 +81,7 @@ CHECKS = {
    note="oracle = my reading of doc.md's tables (length: nearest state the modifier allows; stress as tabulated); contradictory matchers may either not match or error",
    technique="reference-table runtime monitor, exhaustive"),
  "C18": dict(level="exploration", design="§3 C18",
-   text="Exhaustive runtime evaluation of the get/set/match equations on every one of the 65 537 place values, every sub-node value and every feature of the exported Segment/Place API (120 M setter calls per run); thorough adds a slice under Miri for the unwrap_unchecked getters. The space is finite and is enumerated completely, so the only gap is code not reachable through these methods.",
+   text="Exhaustive runtime evaluation of the get/set/match equations on every one of the 65 537 place values, every sub-node value and every feature of the exported Segment/Place API (120 M setter calls per run); the checked build's UB checks guard the unwrap_unchecked getters in every run (an abort by them is reported as a sanitizer violation) and thorough adds a 12.7 k-evaluation slice under Miri. The space is finite and is enumerated completely, so the only gap is code not reachable through these methods.",
    note="oracle = the equations themselves evaluated on the real methods; well-formedness predicate of a place value is mine (sub-node present bit set iff payload may be non-zero)",
    technique="runtime law checking over the full finite input space (public API), Miri slice in thorough"),
 }
